@@ -21,7 +21,12 @@ class Clause:
     props: tuple = ()
     node: ast.AST | None = None
 
+    bounded: bool = False
+
     def __post_init__(self):
+        if self.label.endswith('[bounded]'):
+            self.label = self.label[: -len('[bounded]')]
+            self.bounded = True
         if self.node is None:
             self.node = ast.parse(self.text.strip(), mode='eval').body
 
@@ -59,6 +64,7 @@ class Contract:
     locals: dict = field(default_factory=dict)  # kinds of locals initialised from empty literals
     exsures: list = field(default_factory=list) # (ExcName, Clause): must hold at every exit raising ExcName
     unknown_may_raise: bool = False             # calls of unknown callables may raise 'Exception'
+    hints: list = field(default_factory=list)   # proved-then-assumed lemmas at function entry (ghost)
 
 
 REGISTRY: dict[str, Contract] = {}
@@ -84,7 +90,7 @@ def _clauses(items, props=()):
 def contract(key, *, props=(), params=None, closure=None, result=None, requires=(), ensures=(),
              raises=(), may_raise=(), modifies=(), loops=None, mode='contract', self_cls=None,
              lets=None, trusted=False, note='', float_mode='R', covers=(), locals=None, exsures=(),
-             unknown_may_raise=False):
+             unknown_may_raise=False, hints=()):
     props = tuple(props)
     lp = {}
     for k, v in (loops or {}).items():
@@ -104,7 +110,7 @@ def contract(key, *, props=(), params=None, closure=None, result=None, requires=
         self_cls=self_cls, lets=dict(lets or {}), trusted=trusted, note=note,
         float_mode=float_mode, covers=_clauses(covers, props), locals=dict(locals or {}),
         exsures=[(e, Clause(f'exsures:{e}:{l}', t, props)) for e, l, t in exsures],
-        unknown_may_raise=unknown_may_raise,
+        unknown_may_raise=unknown_may_raise, hints=_clauses(hints, props),
     )
     REGISTRY[key] = c
     return c
@@ -162,6 +168,8 @@ def export_contract(key):
         'result': repr(c.result) if c.result is not None else None,
         'requires': [(cl.label, cl.text) for cl in c.requires],
         'ensures': [(cl.label, cl.text) for cl in c.ensures],
+        'bounded_clauses': [cl.label for cl in c.ensures if cl.bounded],
+        'mode': c.mode,
         'raises': [(e, cl.text) for e, cl in c.raises],
         'may_raise': list(c.may_raise), 'modifies': list(c.modifies),
         'self_cls': c.self_cls, 'float_mode': c.float_mode,
